@@ -11,10 +11,15 @@
 //! abandoned).
 //!
 //! case = { "src": "...", "bps": [1-based lines], "conds": {"<line>": "expr"},
+//!          "mods": [{"name": "lib.star", "src": "...", "bps": [...], "conds": {...}}, ...]  (evaluated WITHOUT hooks, frozen,
+//!                  loadable by name; their breakpoints are resolved against their own AST and registered under their name),
+//!          "finals": bool (report the module's names and values after the evaluation, ok or failed),
+//!          "record": bool (false together with "adapter": false = completely uninstrumented run),
 //!          "policy": ["continue" | "into" | "over" | "out", ...]   (command after stop i; last one repeats),
 //!          "evals": ["expr", ...] (evaluated through the adapter at every stop), "vars": bool,
 //!          "max_stops": n, "timeout_ms": n, "adapter": bool (false: only the recording hook) }
 
+use std::collections::HashMap;
 use std::sync::Arc;
 use std::sync::Mutex;
 use std::sync::mpsc::Sender;
@@ -31,8 +36,10 @@ use starlark::debug::DapAdapterEvalHook;
 use starlark::debug::StepKind;
 use starlark::debug::prepare_dap_adapter;
 use starlark::debug::resolve_breakpoints;
+use starlark::environment::FrozenModule;
 use starlark::environment::Module;
 use starlark::eval::Evaluator;
+use starlark::eval::ReturnFileLoader;
 use starlark::syntax::AstModule;
 use starlark::syntax::Dialect;
 use sv_harness::TRANSCRIPT;
@@ -84,10 +91,16 @@ impl<'e> starlark::eval::BeforeStmtFuncDyn<'e> for Recorder {
         let mut ev = self.events.lock().unwrap();
         if ev.len() < 20000 {
             let r = span.resolve_span();
-            ev.push(json!([r.begin.line + 1, r.begin.column, continued, eval.call_stack_count(), r.end.line + 1, r.end.column]));
+            ev.push(json!([r.begin.line + 1, r.begin.column, continued, eval.call_stack_count(), r.end.line + 1, r.end.column, span.filename()]));
         }
         Ok(())
     }
+}
+
+fn bp_args_for(file: &str, lines: &[i64], conds: &J) -> J {
+    let mut j = bp_args(lines, conds);
+    j["source"]["path"] = json!(file);
+    j
 }
 
 fn bp_args(lines: &[i64], conds: &J) -> J {
@@ -110,8 +123,30 @@ fn step_kind(s: &str) -> Option<StepKind> {
     }
 }
 
+/// The module's variables after the evaluation: [[name, visibility, encoded value or null], ...] sorted by name.
+fn module_finals(module: &Module) -> J {
+    let mut names: Vec<(String, String)> =
+        module.names_and_visibilities().map(|(n, v)| (n.as_str().to_owned(), format!("{:?}", v))).collect();
+    names.sort();
+    J::Array(
+        names
+            .into_iter()
+            .map(|(n, vis)| {
+                let v = std::panic::catch_unwind(std::panic::AssertUnwindSafe(|| module.get(&n).map(enc)));
+                match v {
+                    Ok(Some(s)) => json!([n, vis, s]),
+                    Ok(None) => json!([n, vis, J::Null]),
+                    Err(_) => json!([n, vis, "<Module::get panicked>"]),
+                }
+            })
+            .collect(),
+    )
+}
+
 fn eval_thread(
     src: String,
+    mods: Vec<(String, String)>,
+    finals: bool,
     hook: Option<Box<dyn DapAdapterEvalHook>>,
     events: Arc<Mutex<Vec<J>>>,
     record: bool,
@@ -119,12 +154,35 @@ fn eval_thread(
 ) {
     let out = std::panic::catch_unwind(std::panic::AssertUnwindSafe(|| {
         let g = globals();
+        // library modules: evaluated without any hook, frozen, loadable by name
+        let mut frozen: Vec<(String, FrozenModule)> = Vec::new();
+        for (name, lsrc) in mods {
+            let r: Result<FrozenModule, J> = Module::with_temp_heap(|module| {
+                let map: HashMap<&str, &FrozenModule> = frozen.iter().map(|(n, m)| (n.as_str(), m)).collect();
+                let loader = ReturnFileLoader { modules: &map };
+                let ast = AstModule::parse(&name, lsrc, &Dialect::AllOptionsInternal).map_err(|e| json!({"err": err_json(&e)}))?;
+                {
+                    let mut eval = Evaluator::new(&module);
+                    eval.set_loader(&loader);
+                    eval.set_print_handler(&Printer);
+                    eval.eval_module(ast, &g).map_err(|e| json!({"err": err_json(&e)}))?;
+                }
+                module.freeze().map_err(|e| json!({"err": {"kind": "Freeze", "msg": format!("{:?}", e)}}))
+            });
+            match r {
+                Ok(fm) => frozen.push((name, fm)),
+                Err(j) => return json!({"lib_error": j, "lib": name, "tr": take_transcript()}),
+            }
+        }
+        let map: HashMap<&str, &FrozenModule> = frozen.iter().map(|(n, m)| (n.as_str(), m)).collect();
+        let loader = ReturnFileLoader { modules: &map };
         let ast = match AstModule::parse(FILE, src, &Dialect::AllOptionsInternal) {
             Ok(a) => a,
             Err(e) => return json!({"out": {"err": err_json(&e)}, "tr": []}),
         };
         Module::with_temp_heap(|module| {
             let mut eval = Evaluator::new(&module);
+            eval.set_loader(&loader);
             eval.set_print_handler(&Printer);
             if record {
                 eval.before_stmt_for_dap(starlark::eval::BeforeStmtFunc::from_dyn(Box::new(Recorder { events })));
@@ -143,7 +201,11 @@ fn eval_thread(
             };
             let stack_after = eval.call_stack_count();
             drop(eval);
-            json!({"out": out, "tr": take_transcript(), "stack_after": stack_after})
+            let mut j = json!({"out": out, "tr": take_transcript(), "stack_after": stack_after});
+            if finals {
+                j["finals"] = module_finals(&module);
+            }
+            j
         })
     }));
     let j = match out {
@@ -175,6 +237,15 @@ fn main() {
             .as_array()
             .map(|a| a.iter().filter_map(|x| x.as_str().map(|s| s.to_owned())).collect())
             .unwrap_or_default();
+        let mods: Vec<(String, String)> = c["mods"]
+            .as_array()
+            .map(|a| {
+                a.iter()
+                    .map(|m| (m["name"].as_str().unwrap_or("lib.star").to_owned(), m["src"].as_str().unwrap_or("").to_owned()))
+                    .collect()
+            })
+            .unwrap_or_default();
+        let finals = c["finals"].as_bool().unwrap_or(false);
         let want_vars = c["vars"].as_bool().unwrap_or(true);
         let want_stack = c["stack"].as_bool().unwrap_or(true);
         let use_adapter = c["adapter"].as_bool().unwrap_or(true);
@@ -218,6 +289,32 @@ fn main() {
             if let Err(e) = adapter.set_breakpoints(FILE, &resolved) {
                 return json!({"set_breakpoints_error": format!("{:#}", e)});
             }
+            // breakpoints inside the loaded (frozen) modules: resolved against their own source, registered under their name
+            if let Some(ms) = c["mods"].as_array() {
+                for m in ms {
+                    let name = m["name"].as_str().unwrap_or("lib.star");
+                    let ls: Vec<i64> = m["bps"].as_array().map(|a| a.iter().filter_map(|x| x.as_i64()).collect()).unwrap_or_default();
+                    if ls.is_empty() {
+                        continue;
+                    }
+                    let last = match AstModule::parse(name, m["src"].as_str().unwrap_or("").to_owned(), &Dialect::AllOptionsInternal) {
+                        Ok(a) => a,
+                        Err(e) => return json!({"parse_error": err_json(&e), "lib": name}),
+                    };
+                    let args = match serde_json::from_value(bp_args_for(name, &ls, &m["conds"])) {
+                        Ok(a) => a,
+                        Err(e) => return json!({"harness_error": format!("bp args: {}", e)}),
+                    };
+                    let resolved = match resolve_breakpoints(&args, &last) {
+                        Ok(r) => r,
+                        Err(e) => return json!({"resolve_error": format!("{:#}", e)}),
+                    };
+                    verified.extend(resolved.to_response().breakpoints.iter().map(|b| b.verified));
+                    if let Err(e) = adapter.set_breakpoints(name, &resolved) {
+                        return json!({"set_breakpoints_error": format!("{:#}", e)});
+                    }
+                }
+            }
             adapter_opt = Some(Box::new(adapter));
             hook_opt = Some(Box::new(hook));
         }
@@ -228,7 +325,7 @@ fn main() {
             let events = events.clone();
             let tx = tx.clone();
             let src = src.clone();
-            thread::spawn(move || eval_thread(src, hook_opt, events, record, tx));
+            thread::spawn(move || eval_thread(src, mods, finals, hook_opt, events, record, tx));
         }
         drop(tx);
 
@@ -252,6 +349,7 @@ fn main() {
                                     stop["line"] = json!(f.line);
                                     stop["col"] = json!(f.column);
                                     stop["name"] = json!(f.name);
+                                    stop["file"] = json!(f.source.as_ref().and_then(|s| s.path.clone()));
                                 }
                                 Ok(None) => stop["line"] = J::Null,
                                 Err(e) => stop["top_frame_error"] = json!(format!("{:#}", e)),
